@@ -23,8 +23,11 @@ func New(less LessFunc) *Tree {
 }
 
 func (t *Tree) Insert(item interface{}) {
-	node := &Node{Item: item, Less: t.Less}
+	// new nodes are red and the root is always black; without this no
+	// rotation ever happens and the tree degenerates into an all-black list
+	node := &Node{Item: item, Less: t.Less, Red: true}
 	t.Root = t.Root.insert(node)
+	t.Root.Red = false
 	t.Count++
 }
 
